@@ -130,6 +130,18 @@ def render(method, target, headers=None, body=b""):
     return head + b"\r\n" + body
 
 
+def render_chunked(method, target, chunks, headers=None):
+    """the same request with Transfer-Encoding: chunked (what the xs client sends); chunks = list of byte strings"""
+    h = {"Host": "localhost", "Connection": "close", "Transfer-Encoding": "chunked"}
+    if headers:
+        h.update(headers)
+    head = f"{method} {target} HTTP/1.1\r\n".encode()
+    for k, v in h.items():
+        head += k.encode() + b": " + (v if isinstance(v, bytes) else v.encode()) + b"\r\n"
+    body = b"".join(b"%x\r\n" % len(c) + c + b"\r\n" for c in chunks if c) + b"0\r\n\r\n"
+    return head + b"\r\n" + body
+
+
 def frame_canon(j):
     """a frame as JSON object from the API -> canonical text form (same as the harness/model)"""
     def ttl(t):
